@@ -191,6 +191,9 @@ def wrapper_harness():
 
 def harnesses(tier):
     hs = [oper_harness(tier), wrapper_harness()] + [unary_harness(l) for l in ALL_TYPES]
+    from props import C03
+    for k in (1, 2, 3):
+        h = C03.operator_node_harness(k); h.name = 'A6.route.' + h.name[3:]; hs.append(h)      # the runtime operator nodes compute do_oper(code, operands in order): route agreement
     types = QUICK_TYPES if tier == 'quick' else ALL_TYPES
     for l in types:
         for r in types:
